@@ -61,10 +61,20 @@ def run(R):
         else:
             R.ob(name, 'not_discharged', dt, {'crosshair': msg[-300:]})
         R.sample({'N': n, 'verdict': v, 'secs': round(dt, 1), 'twin': rv})
+    # submission level: what the real Batch.submit actually SENDS (fast path / multi-bunch path, bunches cut by the count
+    # or by the byte limit) reaches the real handlers completely and in order - explored by the z3-driven shape explorer
+    from props import C09 as c09
+    R.assume('submission level: the real aioclient.Batch.submit is run against the real front-end handlers on the sqlsym '
+             'emulator (harness/C09_client.py); two submits, 0-2 job groups and 1 job each, bunch count limit 1 or 1000, byte '
+             'limit default or just above the largest spec (every spec alone in its bunch)')
+    c09.client_end_to_end(R, bunching=True, pid='C19', cls='submitted-bunches-differ-from-created-specs')
 
 
 def replay(path):
     d = json.load(open(path))['replay']
+    if d.get('kind') == 'client':
+        from props import C09 as c09
+        return c09.replay(path)
     mod = importlib.import_module('harness.C19_bunch')
     try:
         ok = mod.property_holds(d['sizes'], d['g'], d['maxb'], d['maxs'])
